@@ -64,6 +64,7 @@ type Val struct {
 	Tup   []Val
 	It    *RangeIter
 	Guard *GuardInfo // value was loaded from a guarded field (maps, slices)
+	Inner *Val       // interface values built by MakeInterface: the boxed value
 	Hi    int        // known bits: value < 2^Hi (0 = unknown)
 	Lo    int        // known bits: value is a multiple of 2^Lo
 }
